@@ -213,6 +213,46 @@ def check_order(ctx):
            % bad_merge[0].text())
 
 
+def check_find(ctx):
+    """While no policy file has been located, every load looks for it."""
+    prog = ctx.prog
+    t = load_table(ctx)
+    r = t.roles
+    lr = r.load_rules
+    bad = None
+    n = 0
+    for p in t.paths:
+        unknown = [c for c in p.conds if c.kind == 'test' and not c.pol
+                   and U(c.expr) == 'self.policy_path']
+        if not unknown:
+            continue
+        first = p.conds.index(unknown[0])
+        # only the first test of policy_path on the path matters
+        if any(U(c.expr) == 'self.policy_path' for c in p.conds[:first]):
+            continue
+        n += 1
+        looked = False
+        for e in p.events:
+            if e.kind in ('call', 'maycall') and classify_event(
+                    t, e) == 'GETPATH' or (
+                        e.kind == 'maycall' and prog.callee_of(
+                            prog.functions.get(e.frame, lr), e.node)
+                        is r.get_path):
+                a0 = e.node.args[0] if e.node.args else None
+                if a0 is not None and U(a0) == 'self.policy_file':
+                    looked = True
+        if not looked and bad is None:
+            bad = p
+    ctx.ob('C09.FIND', bad is None and n > 0, ctx.where(lr.module, lr.node),
+           lr.qual, 'lookup of the policy file (%d paths without a located '
+           'file)' % n,
+           'as long as no policy file has been located, every load looks '
+           'for it again' if bad is None and n else
+           'on a load where no policy file has been located yet the file is '
+           'not looked for (path: %s): a policy file created later is never '
+           'picked up' % (bad.cond_text()[-300:] if bad else 'none'))
+
+
 def check_dirs(ctx):
     prog = ctx.prog
     t = load_table(ctx)
@@ -364,9 +404,8 @@ def check_walker(ctx):
     names = {n.id for n in ast.walk(it) if isinstance(n, ast.Name)}
     for n in ast.walk(w.node):
         if isinstance(n, ast.Call) and method_call(n, 'sort') and U(
-                method_call(n)[0]) in names and not n.args and not any(
-                    k.arg == 'reverse' for k in n.keywords) and \
-                n.lineno < loop.lineno:
+                method_call(n)[0]) in names and not n.args and \
+                not n.keywords and n.lineno < loop.lineno:
             sorted_ok = True
         if isinstance(n, ast.Call) and U(n.func) == 'sorted' and not any(
                 k.arg in ('reverse', 'key') for k in n.keywords):
@@ -376,9 +415,11 @@ def check_walker(ctx):
                 sorted_ok = True
     ctx.ob('C09.WALK', sorted_ok, W(loop), w.qual,
            'iteration ' + U(it)[:80],
-           'file names are sorted before they are applied' if sorted_ok else
-           'files of a policy directory are not applied in sorted name '
-           'order')
+           'file names are sorted (plain lexicographic order) before they '
+           'are applied' if sorted_ok else
+           'files of a policy directory are not applied in plain '
+           'lexicographic name order (no sort, or a sort with key=/'
+           'reverse=)')
     # dot-files filtered
     dot = False
     for n in ast.walk(w.node):
@@ -537,6 +578,7 @@ def check(ctx):
     pick = check_pick(ctx)
     check_file_src(ctx, pick)
     check_order(ctx)
+    check_find(ctx)
     check_dirs(ctx)
     check_walker(ctx)
     check_skip(ctx)
